@@ -35,6 +35,12 @@ func c17Doc(rr *rand.Rand, allowWild bool) (d model.Doc, exp *model.ExpIface, wi
 			f.PREF64 = []model.PREF64St{{}}
 		}
 		d = model.Doc{Ifaces: []model.Iface{f}}
+		switch rr.Intn(4) {
+		case 0: // a monitoring interface next to the advertising one
+			d.Ifaces = append(d.Ifaces, model.Iface{Name: model.S("mon0"), Monitor: model.B(true)})
+		case 1: // an interface that neither advertises nor monitors
+			d.Ifaces = append(d.Ifaces, model.Iface{Name: model.S("idle0"), HopLimit: model.I(7)})
+		}
 		d.Debug = &model.Debug{Address: model.S("127.0.0.1:0"), AddrValid: model.Yes, Prometheus: rr.Intn(4) != 0, PProf: rr.Intn(3) == 0}
 		tri, e, _ := model.Expect(&d)
 		if tri != model.Yes {
@@ -165,14 +171,39 @@ func c17Judge(r *vlib.Run, id string, o c17Obs, cfg *config.Config, want model.R
 		if !okAny {
 			return fail("scrape-content", "scrape does not mirror the RA: "+lastDiff)
 		}
+		// interfaces that do not advertise: only the four per-interface gauges
+		for _, other := range cfg.Interfaces[1:] {
+			on := other.Name
+			ws := map[string]float64{
+				"corerad_interface_advertising{interface=" + on + "}": float64(b2i(other.Advertise)),
+				"corerad_interface_monitoring{interface=" + on + "}":  float64(b2i(other.Monitor)),
+				"corerad_interface_forwarding{interface=" + on + "}":  0,
+			}
+			ws["corerad_interface_autoconfiguration{interface="+on+"}"] = o.scrape["corerad_interface_autoconfiguration{interface="+on+"}"]
+			if other.Advertise {
+				continue
+			}
+			if d := vDiffSamples(ws, vConstOnly(o.scrape, on)); d != "" {
+				return fail("scrape-content", "samples of the non-advertising interface "+on+": "+d)
+			}
+			r.Count("non_advertising_interfaces_compared", 1)
+		}
 		r.Count("scrapes_compared", 1)
 	}
 	// API
 	switch {
 	case o.apiCode == 200:
 		list, err := vAPIInterfaces(o.apiBody)
-		if err != nil || len(list) != 1 {
-			return fail("api-body", fmt.Sprintf("API body undecodable (%v) or %d interfaces", err, len(list)))
+		if err != nil || len(list) != len(cfg.Interfaces) {
+			return fail("api-body", fmt.Sprintf("API body undecodable (%v) or %d interfaces for %d configured", err, len(list), len(cfg.Interfaces)))
+		}
+		for k, other := range cfg.Interfaces {
+			if list[k]["interface"] != other.Name || list[k]["advertise"] != other.Advertise {
+				return fail("api-content", fmt.Sprintf("API entry %d is %v/%v, configured %s advertise=%v", k, list[k]["interface"], list[k]["advertise"], other.Name, other.Advertise))
+			}
+			if !other.Advertise && list[k]["advertisement"] != nil {
+				return fail("api-content", "a non-advertising interface carries an advertisement in the API")
+			}
 		}
 		adv, _ := list[0]["advertisement"].(map[string]any)
 		var lastDiff string
